@@ -468,10 +468,14 @@ class Executor(EvalMixin, MethodsMixin, ExecMixin):
                 else:
                     cols[fld] = ("val", k, None, z3.Array(fresh_name("%s_%s" % (nm, fld)), IntS, SORTS[k]))
             return st.alloc(HRecList(n, cols))
+        if spec[0] == "keyed":
+            return st.alloc(HObj("KeyedObjs", dict((fld, VNone()) for fld in spec[1])))
         if spec[0] == "clistdict":
             return st.alloc(HDict(items=dict((k, self.make_value(v, st, nm + "_" + k)) for k, v in spec[1].items())))
         if spec[0] == "obj":
             f = dict((k, self.make_value(v, st, nm + "_" + k)) for k, v in spec[2].items())
+            if spec[1] == "Tree" and "path" not in f:
+                f["path"] = VStr("")          # ghost: dotted path from the root of the nested dict ("" = root)
             return st.alloc(HObj(spec[1], f))
         if spec[0] == "opt":
             return VOpt(z3.Bool(fresh_name(nm + "_isnone")), self.make_value(spec[1], st, nm))
